@@ -612,6 +612,9 @@ func (c *compiler) compile(tok *token) []instruction {
 		res = append(res, instruction{Code: codeConst, A: reg(c.Globals.Index("nil"))})
 	case "(name)":
 		key := c.expPrefix(tok.Text)
+		if tok.Text == "fallthrough" { // (a keyword of Go: not the name of a variable)
+			panicf("fallthrough is not supported")
+		}
 		if tok.Text == "$" {
 			res = append(res, instruction{Code: codeGlobalGet, A: reg(c.Globals.Index("$"))})
 		} else if c.isLocal() && c.Globals.Exists(c.FuncName+"."+tok.Text) {
